@@ -26,7 +26,7 @@ Spec directives (contracts/*.skel):
   @passthrough <member> ...            `x.<member>` of a tagged value keeps the tag (default: first, second)
   @tagparam <fn> <param> <n>           parameter <param> of skeleton function <fn> carries tag <n>
   @pred binop== <C expression>         built-in `a == b` (`!=` is its negation) when at least one operand is tagged; @0,@1 = tags
-  @assigntag <Record::field> <C macro> `x.field = e` emits MACRO(<tag of e>)
+  @assigntag <Record::field> <C macro> `x.field = e` emits MACRO(<tag of e>, <tag of x>); also `index:<member>` for `m[k] = e`
   @assign <Record::field> <C macro>    `x.field = e` emits MACRO(<condition skeleton of e>)
   @throws <callee>                     the call may throw (control may leave to the enclosing handler / the caller)
   @return <fn> <C macro name>          `return e;` in <fn> emits MACRO(<condition skeleton of e>);
@@ -279,6 +279,11 @@ class Skel:
             key, _, args = self.callee(e)
             if key and key.split('::')[-1] in ('move', 'forward') and len(args) == 1:
                 return self.tag_of(args[0])
+            pat = self.match(self.spec.tagcalls, key)
+            if pat:
+                return self.spec.tagcalls[pat]
+        if k == 'CXXOperatorCallExpr':
+            key, _, _a = self.callee(e)
             pat = self.match(self.spec.tagcalls, key)
             if pat:
                 return self.spec.tagcalls[pat]
@@ -755,17 +760,23 @@ class Skel:
                 lines.append(f'{ind}{self.dyntags[vid0]} = {"901" if is_null else (te if te != "0" else "902")};')
             elif te != '0' and self.spec.options.get('vartags') and vid0 in self.ix.by_id:
                 self.maybe_dyn(self.ix.by_id[vid0], te, lines, ind)
+        if l is not None and l.get('kind') == 'CXXOperatorCallExpr':
+            key, _, _a = self.callee(l)
+            pat = self.match(self.spec.assigntags, key)
+            if pat:
+                lines.append(f'{ind}{self.spec.assigntags[pat]}({self.targ(rhs)}, 0);')
         if l is not None and l.get('kind') == 'MemberExpr':
             did = l.get('referencedMemberDecl')
             q = self.qname_of(did, l.get('name')) if did else l.get('name', '')
+            base = self.targ(l['inner'][0]) if l.get('inner') else '0'
             for pat, macro in self.spec.assigntags.items():
                 if suffix_match(q, pat):
                     self.events_in(rhs, lines, ind)
-                    lines.append(f'{ind}{macro}({self.targ(rhs)});')
+                    lines.append(f'{ind}{macro}({self.targ(rhs)}, {base});')
             for pat, macro in self.spec.assigns.items():
                 if suffix_match(q, pat):
                     c = self.cond(rhs, lines, ind)
-                    lines.append(f'{ind}{macro}({c});')
+                    lines.append(f'{ind}{macro}({c}, {base});')
                     self.used.setdefault('assigns', set()).add(pat)
         if l is not None and l.get('kind') == 'DeclRefExpr':
             vid = l['referencedDecl']['id']
